@@ -28,6 +28,7 @@ type vCtx struct {
 type vOp struct {
 	name string
 	nsrc int
+	cbs  []string // names of user-callback positions (fault-injection points)
 	mk   func(c *vCtx) vPipeline
 	ref  func(c *vCtx, in []vStep) []vEv
 }
@@ -76,9 +77,9 @@ func vParam(c *vCtx, slot int, name string, lo int64) int64 {
 }
 
 var vCatalog = []vOp{
-	{name: "Map", nsrc: 1,
+	{name: "Map", nsrc: 1, cbs: []string{"f"},
 		mk: func(c *vCtx) vPipeline {
-			return vPipe(Map(func(v int64) int64 { return vUFInt("f", v) })(c.src[0]), vFlatInt)
+			return vPipe(Map(func(v int64) int64 { vFP("f"); return vUFInt("f", v) })(c.src[0]), vFlatInt)
 		},
 		ref: func(c *vCtx, in []vStep) []vEv {
 			var out []vEv
@@ -87,9 +88,9 @@ var vCatalog = []vOp{
 			}
 			return vTail(out, in)
 		}},
-	{name: "MapI", nsrc: 1,
+	{name: "MapI", nsrc: 1, cbs: []string{"f"},
 		mk: func(c *vCtx) vPipeline {
-			return vPipe(MapI(func(v int64, i int64) int64 { return vUFInt("f", v, i) })(c.src[0]), vFlatInt)
+			return vPipe(MapI(func(v int64, i int64) int64 { vFP("f"); return vUFInt("f", v, i) })(c.src[0]), vFlatInt)
 		},
 		ref: func(c *vCtx, in []vStep) []vEv {
 			var out []vEv
@@ -98,9 +99,9 @@ var vCatalog = []vOp{
 			}
 			return vTail(out, in)
 		}},
-	{name: "Filter", nsrc: 1,
+	{name: "Filter", nsrc: 1, cbs: []string{"p"},
 		mk: func(c *vCtx) vPipeline {
-			return vPipe(Filter(func(v int64) bool { return vUFBool("p", v) })(c.src[0]), vFlatInt)
+			return vPipe(Filter(func(v int64) bool { vFP("p"); return vUFBool("p", v) })(c.src[0]), vFlatInt)
 		},
 		ref: func(c *vCtx, in []vStep) []vEv {
 			var out []vEv
@@ -198,11 +199,11 @@ var vCatalog = []vOp{
 			}
 			return vTail(out, in)
 		}},
-	{name: "Scan", nsrc: 1,
+	{name: "Scan", nsrc: 1, cbs: []string{"g"},
 		mk: func(c *vCtx) vPipeline {
 			seed := vInt64("seed")
 			c.p[0] = seed
-			return vPipe(Scan(func(acc int64, v int64) int64 { return vUFInt("g", acc, v) }, seed)(c.src[0]), vFlatInt)
+			return vPipe(Scan(func(acc int64, v int64) int64 { vFP("g"); return vUFInt("g", acc, v) }, seed)(c.src[0]), vFlatInt)
 		},
 		ref: func(c *vCtx, in []vStep) []vEv {
 			var out []vEv
